@@ -75,12 +75,44 @@ def run(ctx):
             ctx.violation(m["key"], "%s %s(%s, %s, %s): spec %s, vek %s" % (
                 m["ty"], m["fn"], m["x"], m["lo"], m["hi"], m["expected"], m["observed"]), m)
     ctx.exhaustive = ctx.tier == "thorough"
+    float_traces(ctx)
     # binding demonstration: a corrupted table entry must be flagged by the replayer
     selftest(ctx, paths[jobs.index((1, "wrapped"))])
     for p in paths:
         for q in (p, p + ".rep.json"):
             if os.path.exists(q):
                 os.remove(q)
+
+
+ACTIONS = ["clamped", "is_between", "wrapped", "wrapped_between", "pingpong", "delta_angle_degrees", "delta_angle", "in_range"]
+
+
+def float_traces(ctx):
+    """B2: f32/f64 forms and the angle differences, recorded from vek, validated by Trace_Ops."""
+    n = 1500 if ctx.tier == "quick" else 20000
+    tr = os.path.join(ctx.work, "ops_trace.ndjson")
+    core.vh(["drive", "ops", "--out", tr, "--seed", ctx.seed, "--n", n])
+    recs = core.read_ndjson(tr)
+    for r in recs:
+        if r["r"] == 888888:
+            ctx.inconclusive += 1
+        ctx.nontrivial([r["op"], r["x"], r["lo"], r["hi"], r["s"]])
+    ctx.sample(recs[2])
+    ctx.sample(recs[5])
+    mm = core.validate_trace(ctx, "Trace_Ops", tr, "float-trace", expect_actions=ACTIONS, timeout=1200)
+    ctx.traces += 1
+    for rec, info in mm:
+        ctx.violation("%s/float" % rec["op"], "%s %s(x=%s, lo=%s, hi=%s)*2^-%s: spec %s, vek %s" % (
+            rec["ty"], rec["op"], rec["x"], rec["lo"], rec["hi"], rec["s"], info.get("exp"), rec["r"]), rec)
+
+    def mutate(rs):
+        i = next(k for k, r in enumerate(rs) if r["op"] == "wrapped" and r["r"] not in (999999, 888888))
+        rs[i]["r"] += 1
+        return i
+    core.selftest_corrupt(ctx, "Trace_Ops", tr, "float-trace", mutate)
+    for q in os.listdir(ctx.work):
+        if q.startswith("ops_trace"):
+            os.remove(os.path.join(ctx.work, q))
 
 
 def selftest(ctx, path):
